@@ -1,0 +1,5 @@
+//go:build !verif
+
+package ugo
+
+func verifSync(string, *VM) {}
